@@ -137,6 +137,9 @@ def histories(ctx, rng):
     yield "empty", []
     for k in ((30, 45) if not ctx.thorough else (24, 30, 45, 60)):
         yield "nested-diamonds-%d" % k, nested_diamonds(k, rng)
+    for _ in range(400 if ctx.thorough else 60):
+        # descriptive / hand-numbered ids, one contained in another, lineages tied by depends_on (acyclic)
+        yield "descriptive-ids", gen_graph.descriptive_history(rng)
     for _ in range(3000 if ctx.thorough else 300):
         kind, h = malformed(rng, rng.randint(1, 7))
         yield "malformed:" + kind, h
